@@ -41,6 +41,50 @@ class BranchRec(SymVal):
     def sym_truth(self, it): return True
     def sym_is(self, it, o): return self is o
 
+class NodeTok(Tok):
+    "a node token with the per-node tick mark Branch.tick leaves on the node object"
+    def __init__(self, name, ticked): super().__init__(name); self.ticked = ticked
+    def sym_getattr(self, it, name):
+        if name == 'ticked': return self.ticked
+        raise Outside(f'Node.{name}')
+
+class HelperCaches:
+    """rule[HelperClass][branch] for the branch caches of a rule (FilterHelper and friends): every cache holds the old nodes of the target
+    branch; a branch made by Tableau.branch(parent) starts with a copy of its parent's entry (BranchCache listener contract)"""
+    def __init__(self, target, old): self.target, self.old, self.by_helper = target, list(old), {}
+    def cache(self, helpercls):
+        from checks.helpers_ob import LSet
+        outer = self
+        if helpercls not in self.by_helper:
+            class Cache(SymVal):
+                def __init__(s): s.d = {}
+                def sym_getitem(s, it, b):
+                    if id(b) not in s.d:
+                        if b is outer.target or getattr(b, 'parent', None) is not None: s.d[id(b)] = (b, LSet(outer.old))
+                        else: raise PyExc(KeyError, (b,))
+                    return s.d[id(b)][1]
+                def sym_contains(s, it, b): return True
+                def sym_getattr(s, it, n):
+                    if n == 'get': return Contract(lambda it, b, d=None: s.sym_getitem(it, b), 'dict.get')
+                    raise Outside(f'helper cache .{n}')
+            self.by_helper[helpercls] = Cache()
+        return self.by_helper[helpercls]
+    def changed(self):
+        out = []
+        for h, c in self.by_helper.items():
+            for b, st in c.d.values():
+                if set(st) != set(self.old): out.append(f'_apply changed {getattr(h, "__name__", h)}[{b!r}]: {sorted(map(repr, st))}, the listeners had put {sorted(map(repr, self.old))} there')
+        return out
+
+class RuleRec(SymVal):
+    def __init__(self, caches, **kw): self.caches, self.kw = caches, kw
+    def sym_getattr(self, it, name):
+        if name in self.kw: return self.kw[name]
+        if name == 'helpers': return self
+        raise Outside(f'rule.{name}')
+    def sym_getitem(self, it, helpercls): return self.caches.cache(helpercls)
+    def sym_truth(self, it): return True
+
 class TabRec(SymVal):
     def __init__(self): self.branches = []
     def sym_getattr(self, it, name):
@@ -84,14 +128,17 @@ def adz_apply_obligations(ctx, prefix):
             for size in (1, 2):
                 cases += 1
                 groups = tuple(tuple(Tok(f'n{i}_{j}') for j in range(size)) for i in range(k))
-                old = [Tok('o1'), Tok('o2')]
+                # nodes already on the branch; o2 carries the per-NODE tick mark (it was ticked on some branch -- not necessarily on this one)
+                old = [NodeTok('o1', False), NodeTok('o2', True)]
                 node = old[0]
                 tb = BranchRec('target', old)
                 tab = TabRec()
                 tgt = Holder(adds=groups, branch=tb, node=node)
-                selfm = Holder(tableau=tab, rule=Holder(ticking=ticking, tableau=tab), _cls=H.AdzHelper)      # Rule.Helper.tableau is rule.tableau
+                caches = HelperCaches(tb, old)
+                selfm = Holder(tableau=tab, rule=RuleRec(caches, ticking=ticking, tableau=tab), _cls=H.AdzHelper)      # Rule.Helper.tableau is rule.tableau
                 def run(path):
-                    it = Interp(path, World())
+                    from checks.helpers_ob import helper_world
+                    it = Interp(path, helper_world())
                     return it.call_source(fi, func, H.AdzHelper, [selfm, tgt], {})
                 try:
                     prs = explore(run)
@@ -106,6 +153,8 @@ def adz_apply_obligations(ctx, prefix):
                     if b.parent is not tb: bad.append(f'k={k}: branch {i} is not a copy of target.branch')
                     if ticking != (node in b.ticked): bad.append(f'ticking={ticking}: node ticked on branch {i}: {node in b.ticked}')
                 if ticking != (node in tb.ticked): bad.append(f'ticking={ticking}: node ticked on target branch: {node in tb.ticked}')
+                # frame: the rule's helper caches are kept by the branch listeners -- _apply itself takes nothing out of them
+                for why in caches.changed(): bad.append(f'k={k}: {why}')
     ctx.add(Obligation(f'{prefix}.AdzHelper._apply.extends', not bad, kind='enum', where=where,
                        meta=dict(clause='after _apply: target.branch = old + adds[0]; one copy of the OLD target.branch + adds[i] per i >= 1; the node is ticked on all of them iff rule.ticking; nothing else changes',
                                  cases=cases, cex=dict(bad=bad[:5]))))
